@@ -1,4 +1,4 @@
-from typing import TypeVar, cast
+from typing import TypeVar
 
 from pyrsistent import PList, plist  # pylint: disable=unused-import
 from pyrsistent._plist import _EMPTY_PLIST  # pylint: disable=import-private-name
@@ -85,7 +85,9 @@ class PersistentList(IPersistentList[T], ISeq[T], IWithMeta):
     def pop(self) -> "PersistentList[T]":
         if self.is_empty:
             raise IndexError("Cannot pop an empty list")
-        return cast(PersistentList, self.rest)
+        # not `self.rest`: the rest of a one element list is the empty *seq*, which is
+        # not a list (it has no peek/pop and conj does not produce a list again)
+        return PersistentList(self._inner.rest)
 
 
 EMPTY: PersistentList = PersistentList(plist())
